@@ -14,6 +14,8 @@ pub enum Op {
     /// next_frames(), take k items, drop the iterator
     NextFrames(usize),
     IsExhausted,
+    /// next_frames().nth(k): consumes k+1 frames of the batch (or all of it) and yields the last one
+    NextFramesNth(usize),
 }
 
 #[derive(Clone, Debug, Serialize, Deserialize)]
@@ -95,6 +97,28 @@ fn run_typed<F: Coded>(c: &Case, st: &mut Stats) -> CheckResult {
                 }
             }
             Op::IsExhausted => {}
+            Op::NextFramesNth(kth) => {
+                if q.is_empty() {
+                    refill(&mut q, &mut src_pos);
+                }
+                let avail = q.len();
+                let got = buffered.next_frames().nth(*kth);
+                let mut exp: Option<Option<u64>> = None;
+                for _ in 0..=*kth {
+                    exp = q.pop_front();
+                    if exp.is_none() {
+                        break;
+                    }
+                }
+                match (got, exp) {
+                    (Some(g), Some(e)) => ensure!(same(g, e), "op #{} next_frames().nth({}): got {:?} (frame {:?}), expected stream element {:?}", k, kth, g, g.decode(), e),
+                    (None, None) => {}
+                    (g, e) => return Err(format!("op #{} next_frames().nth({}): iterator gave {:?}, model {:?} ({} frames were buffered)", k, kth, g, e, avail)),
+                }
+                if *kth + 1 < avail {
+                    partial_batch = true;
+                }
+            }
         }
         let pulled = counters.pulls() - pulls_before;
         let exp_pulled = if was_empty && !matches!(op, Op::IsExhausted) { cap } else { 0 };
@@ -145,6 +169,8 @@ fn all_op_strings(len: usize, cap: usize) -> Vec<Vec<Op>> {
     for k in 0..=cap {
         alphabet.push(Op::NextFrames(k));
     }
+    alphabet.push(Op::NextFramesNth(0));
+    alphabet.push(Op::NextFramesNth(cap / 2 + 1));
     let mut out: Vec<Vec<Op>> = vec![vec![]];
     for _ in 0..len {
         let mut next = Vec::new();
@@ -167,7 +193,7 @@ pub fn case_strategy() -> impl Strategy<Value = Case> {
             0..=cap,
             prop_oneof![1 => Just(None), 3 => (0u64..200).prop_map(Some)],
             any::<bool>(),
-            proptest::collection::vec(prop_oneof![4 => Just(Op::Next), 3 => (0..=cap + 1).prop_map(Op::NextFrames), 1 => Just(Op::IsExhausted)], 0..120),
+            proptest::collection::vec(prop_oneof![4 => Just(Op::Next), 3 => (0..=cap + 1).prop_map(Op::NextFrames), 1 => Just(Op::IsExhausted), 1 => (0..=cap + 1).prop_map(Op::NextFramesNth)], 0..120),
             any::<bool>(),
         )
             .prop_map(move |(start, prefill, src_len, int_frames, ops, drain)| Case { cap, start, prefill, src_len, int_frames, ops, drain })
